@@ -13,7 +13,8 @@ from hypothesis import strategies as st
 from vf import cel, common, corpus, gen, ir, localize, outcome, progs, tree2ir
 
 RULE = (
-    "programs from the type-directed generator, the grammar-directed generator (ill-typed combinations, unbound variables, malformed macro arity), "
+    "programs from the type-directed generator (macros over lists and over maps), the grammar-directed generator (ill-typed combinations, unbound variables, malformed macro arity), "
+    "macros nested 2-3 deep capturing outer iteration variables, navigation of JSON-like documents along paths drawn from the document (members that are null/empty, near misses), "
     "every expression of the conformance corpus + edge supplement, and corpus expressions with one mutation (wrapped in ||/&&/?:/has()/exists() absorbing "
     "contexts, operator swap, literal replacement) x generated activations. non-trivial = parses, has >= 1 operator/function/macro, and the interpreter's "
     "outcome is a value or an error. distinct by source (+ bindings)."
@@ -152,6 +153,8 @@ def campaign(run: common.Run) -> None:
 
     common.drive(run, body_typed, {"p": gen.typed_program(4)}, 1200 if q else 20000, seed_salt=1)
     common.drive(run, body_any, {"p": gen.any_program(4)}, 1500 if q else 25000, seed_salt=2)
+    common.drive(run, body_typed, {"p": gen.nested_macro_program()}, 400 if q else 8000, seed_salt=4)
+    common.drive(run, body_typed, {"p": gen.document_program()}, 600 if q else 10000, seed_salt=5)
     common.drive(run, body_mut, {"s": progs.mutated_corpus()}, 500 if q else 10000, seed_salt=3)
 
 
